@@ -5,7 +5,7 @@ column ``conditional_on[K]`` of the state matrix, under the None-test of
 import ast
 
 from vstat.loader import AnalysisError
-from vstat.terms import builder, show, SELF, NONE, G, alts, walk, mentions, phi, strip_none
+from vstat.terms import top_alts, degrade, builder, show, SELF, NONE, G, alts, walk, mentions, phi, strip_none
 from vstat.guards import path_conditions
 from vstat.cfg import cfg_of
 from vstat import algebra
@@ -30,9 +30,6 @@ def column_stores(prog, fn, b, sink):
     for st in cfg_of(fn).all_stmts():
         if not (isinstance(st, ast.Assign) and len(st.targets) == 1 and isinstance(st.targets[0], ast.Subscript)):
             continue
-        val = b.term(st.value, st)
-        if not (val[0] == "call" and val[1][0] == "attr" and val[1][2] == sink):
-            continue
         tg = st.targets[0]
         tb = strip_none(b.term(tg.value, st))
         idx = b.index(tg.slice, st, {})
@@ -45,7 +42,17 @@ def column_stores(prog, fn, b, sink):
                 K, row = k, a
         if K is None:
             continue
-        out.append(Store(st, tb, K, row, val, pcs.of(st)))
+        # one store may choose between a conditional and an unconditional call (conditional expression, conditional **kwargs):
+        # the alternatives and their guards come from a guarded builder; the calls themselves are compared in plain form
+        val = b.term(st.value, st)
+        if val[0] == "call":
+            choices = [((), val)]
+        else:
+            bg = builder(prog, fn, b.self_cls, guarded=True)
+            choices = [(lits, degrade(v)) for lits, v in top_alts(bg.term(st.value, st))]
+        for lits, val in choices:
+            if val[0] == "call" and val[1][0] == "attr" and val[1][2] == sink:
+                out.append(Store(st, tb, K, row, val, tuple(pcs.of(st)) + tuple(lits)))
     return out
 
 
